@@ -22,6 +22,11 @@ type C11Scn struct {
 	Fixture string     `json:"fixture,omitempty"`
 	Gen     string     `json:"gen,omitempty"`
 	Tasks   []TaskSpec `json:"tasks"`
+	// Trio: a focused scenario (three short tasks on two hot keys whose
+	// ordinals collide modulo a power of two). If the solo profile contains
+	// synchronising statements, ALL (task, site, visit) x {plain, second
+	// preemption, double park} schedules are executed instead of a sample.
+	Trio bool `json:"trio,omitempty"`
 }
 
 func intWidth(enc string, hasVals bool) int {
@@ -212,6 +217,32 @@ func genC11(r *Rng, tier string) *C11Scn {
 		qs = append(hotq, qs[:4]...)
 		lim.maxTasks, lim.maxUnits = r.PickI(3, 3, 4), r.PickI(6, 12, 30)
 		mix.Heavy, mix.Small = false, false
+	}
+	if hot && r.Chance(0.5) {
+		// focused trio: reader warms and re-reads K1, writer 1 touches the
+		// colliding K2, writer 2 touches K1 again; same read API everywhere
+		k1, k2 := qs[0], qs[1]
+		kind := r.PickS("get", "get", "getid", "rangeget", "search")
+		if mix.Complete && r.Chance(0.3) {
+			kind = r.PickS("scanfrom", "iter")
+		}
+		mk := func(q []byte) Unit {
+			u := Unit{Kind: kind, Q: q}
+			if kind == "scanfrom" || kind == "iter" {
+				u.Incl, u.Limit = true, 3
+			}
+			return u
+		}
+		c.Tasks = []TaskSpec{
+			{Units: []Unit{mk(k1), mk(k1)}},
+			{Units: []Unit{mk(k2)}},
+			{Units: []Unit{mk(k1)}},
+		}
+		if r.Chance(0.3) {
+			c.Tasks[1].Units = append(c.Tasks[1].Units, mk(k2))
+		}
+		c.Trio = true
+		return c
 	}
 	nt := r.Range(2, lim.maxTasks)
 	for i := 0; i < nt; i++ {
@@ -474,19 +505,35 @@ func executeC11(scn *Scenario) *RunResult {
 	return res
 }
 
+// warmProfiles runs all tasks one after the other on st (every unit, in order,
+// nothing de-duplicated) and returns the sites each task visited.
+func warmProfiles(st *trie.SlimTrie, tasks []TaskSpec) []map[int]int32 {
+	out := make([]map[int]int32, len(tasks))
+	for ti := range tasks {
+		out[ti] = map[int]int32{}
+		for ui := range tasks[ti].Units {
+			soloSiteRec = out[ti]
+			runSoloCapped(st, &tasks[ti].Units[ui])
+			soloSiteRec = nil
+		}
+	}
+	return out
+}
+
 // sweepCandidates enumerates (task, synchronisation-adjacent site, visit)
 // triples from the solo profile and returns a PRNG sample of them as resolved
 // sweep strategies.
-func sweepCandidates(seed uint64, tasks []TaskSpec, refs map[string]unitRef, max int) []Strategy {
+func sweepCandidates(seed uint64, tasks []TaskSpec, profiles []map[int]int32, max int, exhaustive bool) []Strategy {
 	r := NewRng(seed ^ 0x5157)
 	var all []Strategy
 	for ti := range tasks {
+		if len(tasks[ti].Units) == 0 || ti >= len(profiles) {
+			continue
+		}
 		agg := map[int]int32{}
-		for ui := range tasks[ti].Units {
-			for site, n := range refs[tasks[ti].Units[ui].key()].sites {
-				if site > 0 && site < len(siteSync) && siteSync[site] {
-					agg[site] += n
-				}
+		for site, n := range profiles[ti] {
+			if site > 0 && site < len(siteSync) && siteSync[site] {
+				agg[site] += n
 			}
 		}
 		sites := make([]int, 0, len(agg))
@@ -497,12 +544,32 @@ func sweepCandidates(seed uint64, tasks []TaskSpec, refs map[string]unitRef, max
 		for _, site := range sites {
 			n := int(agg[site])
 			visits := map[int]bool{0: true, n - 1: true, r.Intn(n): true, r.Intn(n): true}
+			if exhaustive {
+				for v := 0; v < n && v < 8; v++ {
+					visits[v] = true
+				}
+			}
 			vs := make([]int, 0, len(visits))
 			for v := range visits {
 				vs = append(vs, v)
 			}
 			sortInts(vs)
 			for _, v := range vs {
+				if exhaustive {
+					base := Strategy{Kind: "sweep", Seed: r.U64(), Task: ti, Site: site, Skip: v, Resolved: true}
+					all = append(all, base)
+					for _, ag := range []int{1, 2, 3} {
+						for _, fu := range []int{1, 0} {
+							s2 := base
+							s2.Again, s2.FirstUnits = ag, fu
+							all = append(all, s2)
+						}
+					}
+					s3 := base
+					s3.Second = 1 + int(r.U64()%64)
+					all = append(all, s3)
+					continue
+				}
 				st := Strategy{Kind: "sweep", Seed: r.U64(), Task: ti, Site: site, Skip: v, Resolved: true}
 				switch {
 				case r.Chance(0.25):
@@ -544,10 +611,49 @@ func executeC11Once(scn *Scenario) *RunResult {
 	refs, total := soloRefs(twinA, c.Tasks)
 	recordSoloSites = false
 	generated := scn.Strat.Kind != "replay" && !scn.Strat.Resolved
-	adaptToSync(&scn.Strat, c.Tasks, refs)
-	resolveSweep(&scn.Strat, c.Tasks, refs)
+	profiles := coldProfiles(c.Tasks, refs)
+	if generated && profilesHaveSync(profiles) {
+		// The cold, de-duplicated solo profiles do not contain paths that are
+		// only taken when a cache of the code under test is WARM (the hit path
+		// of a second lookup of the same key). One more instance serves all
+		// tasks sequentially, unit by unit, with site recording: per task the
+		// larger of the two counts is kept; a site seen by any task is a
+		// candidate for every task.
+		if warm, err := c.instances(1); err == nil {
+			wp := warmProfiles(warm[0], c.Tasks)
+			union := map[int]bool{}
+			for ti := range profiles {
+				for site, n := range wp[ti] {
+					if n > profiles[ti][site] {
+						profiles[ti][site] = n
+					}
+				}
+				for site := range profiles[ti] {
+					if site > 0 && site < len(siteSync) && siteSync[site] {
+						union[site] = true
+					}
+				}
+			}
+			for ti := range profiles {
+				if len(c.Tasks[ti].Units) == 0 {
+					continue
+				}
+				for site := range union {
+					if profiles[ti][site] == 0 {
+						profiles[ti][site] = 1
+					}
+				}
+			}
+		}
+	}
+	adaptToSync(&scn.Strat, profiles)
+	resolveSweep(&scn.Strat, c.Tasks, profiles)
 	if generated {
-		res.SweepCands = sweepCandidates(scn.Strat.Seed, c.Tasks, refs, 36)
+		if c.Trio {
+			res.SweepCands = sweepCandidates(scn.Strat.Seed, c.Tasks, profiles, 400, true)
+		} else {
+			res.SweepCands = sweepCandidates(scn.Strat.Seed, c.Tasks, profiles, 36, false)
+		}
 	}
 	refsB, _ := soloRefs(twinB, c.Tasks)
 	for k, r := range refs {
